@@ -202,7 +202,7 @@ class SqwBuilder:
                         pix_wrap.row_data, pix_wrap.row_units, strict=True
                     )
                 ]
-            ),
+            ).astype(np.float64, copy=False),  # stored as f64 for any row dtype
         )
 
     def _serialize_data_blocks(
